@@ -269,6 +269,9 @@ def write_evidence(pid, tier, seed, spec, results, lemma_res, b, violations, bvi
     from gvc import verify as V2
     theories = sorted({th for k in results if k in REG.by_name for th in V2.theories_of(REG.by_name[k])})
     assumed = ['axiom[%s] %s' % (th, n) for th in theories for (tag, n, _f) in T.AXIOMS.get(th, []) if tag == 'assumed']
+    assumed += ['type invariant assumed at entry of %s (holds for every Python value of the type; not checked at call sites): %s' % (k, ti)
+                for k in results if k in REG.by_name for ti in REG.by_name[k].type_invariants]
+    assumed = list(dict.fromkeys(assumed))
     lfp = ['least-fixpoint intro rules[%s] %s (leastness used only via explicit instances)' % (th, n) for th in theories for (tag, n, _f) in T.AXIOMS.get(th, []) if tag == 'lfp']
     all_proved = bool(results) and all(r['status'] == 'proved' for r in results.values()) and lem_ok == lem_total
     assumed_contracts = ['assumed contract (not verified, bounded only): %s' % k for k, r in results.items() if r['status'] == 'assumed']
